@@ -256,7 +256,7 @@ func (l *queue) Empty() bool {
 	if l.head == nil || l.tail == nil || len(l.segments) == 0 {
 		return true
 	}
-	if l.head == l.tail && l.head.pos == l.tail.filePos()-footerSize {
+	if l.head == l.tail && l.head.empty() {
 		return true
 	}
 	return false
@@ -755,6 +755,14 @@ func (l *segment) lastModified() (time.Time, error) {
 		return time.Time{}, err
 	}
 	return stats.ModTime().UTC(), nil
+}
+
+// empty returns true if every block in the segment has been advanced past
+// and no appended block is waiting in the write buffer.
+func (l *segment) empty() bool {
+	l.mu.RLock()
+	defer l.mu.RUnlock()
+	return l.pos == l.size-footerSize && (l.buf == nil || l.buf.Len() == 0)
 }
 
 func (l *segment) diskUsage() int64 {
